@@ -3,9 +3,14 @@
 
    One filtering thread (program counter [pc]) and one controller.  A thread
    move executes ONE shared-memory action of filtering_recursion(); a controller
-   move executes one public member function atomically (run/reboot/teardown hold
-   mtx_run_ for their whole body, reset/is_running/step_number are one atomic
-   access).  The configuration carries the event trace, NEWEST EVENT FIRST.
+   move executes one public member function (run/teardown: one store + notify under
+   mtx_run_; reset/is_running/step_number: one atomic access) — except reboot(),
+   which performs TWO stores under the mutex (reset_ = true; then run_ = false) that
+   the thread can observe separately in its unlocked loop conditions: it is two
+   moves (MCmd Reboot, MRebootEnd) with [c_mid] = true in between, during which the
+   controller owns mtx_run_ (the thread cannot take it, run/teardown/reboot cannot
+   start).  The configuration carries the event trace, NEWEST EVENT FIRST.
+   ERc b records that run_condition() returned b.
 
    pc            code position (BFL_VERIF_POINT k / probe callback k)
    PTop          (1) before  reset_ = false
@@ -44,51 +49,52 @@ Inductive cmd : Set := Run | Reset | Reboot | Teardown | Wait | IsRunning | Step
 
 (* EQRun b / EQStep k: is_running() returned b / step_number() returned k *)
 Inductive event : Set :=
-  EInit | EStep (k : nat) | EExit | ECmd (c : cmd) | EQRun (b : bool) | EQStep (k : nat).
+  EInit | EStep (k : nat) | EExit | ECmd (c : cmd) | EQRun (b : bool) | EQStep (k : nat) | ERc (b : bool).
 
 Record config : Set := mk {
   c_pc : pc;
   c_run : bool; c_rst : bool; c_td : bool;   (* run_, reset_, teardown_ *)
   c_step : nat;                              (* filtering_step_ *)
   c_woken : bool;                            (* a notify reached the sleeping thread *)
+  c_mid : bool;                              (* controller inside reboot(), between its two stores, holding mtx_run_ *)
   c_trace : list event                       (* newest first *)
 }.
 
 (* state right after boot(): the thread exists and has not moved *)
-Definition init : config := mk PTop false false false 0 false [].
+Definition init : config := mk PTop false false false 0 false false [].
 
 (* thread move; [b] is the answer of run_condition() (used at PC1a / PC2a only) *)
 Definition tstep (b : bool) (c : config) : option config :=
-  let '(mk p r s t n w tr) := c in
+  let '(mk p r s t n w d tr) := c in
   match p with
-  | PTop      => Some (mk PZero r false t n w tr)
-  | PZero     => Some (mk PLock r s t 0 w tr)
-  | PLock     => Some (mk PHeld r s t n w tr)
+  | PTop      => Some (mk PZero r false t n w d tr)
+  | PZero     => Some (mk PLock r s t 0 w d tr)
+  | PLock     => if d then None else Some (mk PHeld r s t n w d tr)
   | PHeld | PRecheck =>
-      if r || t then Some (mk PInit r s t n false tr) else Some (mk PSleep r s t n false tr)
-  | PSleep    => if w then Some (mk PRecheck r s t n false tr) else None
-  | PInit     => Some (mk PInitBody r s t n w (EInit :: tr))
-  | PInitBody => Some (mk PC1a r s t n w tr)
-  | PC1a      => Some (mk (if b then PC1b else PAfter) r s t n w tr)
-  | PC1b      => Some (mk (if t then PAfter else PC1c) r s t n w tr)
-  | PC1c      => Some (mk (if s then PAfter else PStep) r s t n w tr)
-  | PStep     => Some (mk PStepBody r s t n w (EStep n :: tr))
-  | PStepBody => Some (mk PInc r s t n w tr)
-  | PInc      => Some (mk PC1a r s t (S n) w tr)
-  | PAfter    => Some (mk PC2a r s t n w tr)
-  | PC2a      => Some (mk (if b then PC2b else PFinal) r s t n w tr)
-  | PC2b      => Some (mk (if r then PC2d else PC2c) r s t n w tr)
-  | PC2c      => Some (mk (if s then PC2d else PFinal) r s t n w tr)
-  | PC2d      => Some (mk (if t then PFinal else PTop) r s t n w tr)
-  | PFinal    => Some (mk PDone false s t n w (EExit :: tr))
-  | PDone     => Some (mk PExited r s t n w tr)
+      if r || t then Some (mk PInit r s t n false d tr) else Some (mk PSleep r s t n false d tr)
+  | PSleep    => if w && negb d then Some (mk PRecheck r s t n false d tr) else None
+  | PInit     => Some (mk PInitBody r s t n w d (EInit :: tr))
+  | PInitBody => Some (mk PC1a r s t n w d tr)
+  | PC1a      => Some (mk (if b then PC1b else PAfter) r s t n w d (ERc b :: tr))
+  | PC1b      => Some (mk (if t then PAfter else PC1c) r s t n w d tr)
+  | PC1c      => Some (mk (if s then PAfter else PStep) r s t n w d tr)
+  | PStep     => Some (mk PStepBody r s t n w d (EStep n :: tr))
+  | PStepBody => Some (mk PInc r s t n w d tr)
+  | PInc      => Some (mk PC1a r s t (S n) w d tr)
+  | PAfter    => Some (mk PC2a r s t n w d tr)
+  | PC2a      => Some (mk (if b then PC2b else PFinal) r s t n w d (ERc b :: tr))
+  | PC2b      => Some (mk (if r then PC2d else PC2c) r s t n w d tr)
+  | PC2c      => Some (mk (if s then PC2d else PFinal) r s t n w d tr)
+  | PC2d      => Some (mk (if t then PFinal else PTop) r s t n w d tr)
+  | PFinal    => Some (mk PDone false s t n w d (EExit :: tr))
+  | PDone     => Some (mk PExited r s t n w d tr)
   | PExited   => None
   end.
 
 (* a spurious wake-up of the condition variable (allowed by the C++ standard) *)
 Definition spurious (c : config) : option config :=
-  let '(mk p r s t n w tr) := c in
-  match p with PSleep => Some (mk PRecheck r s t n false tr) | _ => None end.
+  let '(mk p r s t n w d tr) := c in
+  match p with PSleep => if d then None else Some (mk PRecheck r s t n false d tr) | _ => None end.
 
 (* the thread owns mtx_run_ exactly at PHeld and PRecheck *)
 Definition mutex_free (p : pc) : bool :=
@@ -100,30 +106,37 @@ Definition notified (p : pc) (w : bool) : bool :=
 
 (* teardown() as it is now: lock_guard; teardown_ = true; notify_one *)
 Definition teardown_now (c : config) : option config :=
-  let '(mk p r s t n w tr) := c in
-  if mutex_free p then Some (mk p r s true n (notified p w) (ECmd Teardown :: tr)) else None.
+  let '(mk p r s t n w d tr) := c in
+  if mutex_free p && negb d then Some (mk p r s true n (notified p w) d (ECmd Teardown :: tr)) else None.
 
 (* controller move; the teardown action is a parameter so that the regression
-   file can instantiate the pre-fix transcription without touching this one *)
+   file can instantiate the pre-fix transcription without touching this one.
+   Reboot is the first half of reboot(): lock_guard; reset_ = true *)
 Definition cstep (tdn : config -> option config) (k : cmd) (c : config) : option config :=
-  let '(mk p r s t n w tr) := c in
+  let '(mk p r s t n w d tr) := c in
   match k with
-  | Run        => if mutex_free p then Some (mk p true s t n (notified p w) (ECmd Run :: tr)) else None
-  | Reboot     => if mutex_free p then Some (mk p false true t n (notified p w) (ECmd Reboot :: tr)) else None
-  | Reset      => Some (mk p r true t n w (ECmd Reset :: tr))
+  | Run        => if mutex_free p && negb d then Some (mk p true s t n (notified p w) d (ECmd Run :: tr)) else None
+  | Reboot     => if mutex_free p && negb d then Some (mk p r true t n w true (ECmd Reboot :: tr)) else None
+  | Reset      => Some (mk p r true t n w d (ECmd Reset :: tr))
   | Teardown   => tdn c
-  | Wait       => match p with PExited => Some (mk p r s t n w (ECmd Wait :: tr)) | _ => None end
-  | IsRunning  => Some (mk p r s t n w (EQRun r :: tr))
-  | StepNumber => Some (mk p r s t n w (EQStep n :: tr))
+  | Wait       => match p with PExited => Some (mk p r s t n w d (ECmd Wait :: tr)) | _ => None end
+  | IsRunning  => Some (mk p r s t n w d (EQRun r :: tr))
+  | StepNumber => Some (mk p r s t n w d (EQStep n :: tr))
   end.
 
-Inductive move : Set := MThread (b : bool) | MSpurious | MCmd (k : cmd).
+(* second half of reboot(): run_ = false; notify_one; unlock *)
+Definition reboot_end (c : config) : option config :=
+  let '(mk p r s t n w d tr) := c in
+  if d then Some (mk p false s t n (notified p w) false tr) else None.
+
+Inductive move : Set := MThread (b : bool) | MSpurious | MCmd (k : cmd) | MRebootEnd.
 
 Definition step_with (tdn : config -> option config) (c : config) (m : move) : option config :=
   match m with
   | MThread b => tstep b c
   | MSpurious => spurious c
   | MCmd k    => cstep tdn k c
+  | MRebootEnd => reboot_end c
   end.
 
 (* THE model of the code as it is now *)
@@ -135,6 +148,93 @@ Inductive reachable_with (tdn : config -> option config) : config -> Prop :=
 | R_step : forall c m c', reachable_with tdn c -> step_with tdn c m = Some c' -> reachable_with tdn c'.
 
 Definition reachable : config -> Prop := reachable_with teardown_now.
+
+(* ------------------------------------------------------------------ *)
+(* The same semantics once more, as a relation with one rule per action of the
+   code (for reading against FilteringAlgorithm.cpp).  C09_Proofs.sstep_iff_step
+   proves  sstep c m c' <-> step c m = Some c'; all theorems are stated on [step]. *)
+Inductive sstep : config -> move -> config -> Prop :=
+(* do { reset_ = false; *)
+| S_top b r s t n w d tr :
+    sstep (mk PTop r s t n w d tr) (MThread b) (mk PZero r false t n w d tr)
+(* filtering_step_ = 0; *)
+| S_zero b r s t n w d tr :
+    sstep (mk PZero r s t n w d tr) (MThread b) (mk PLock r s t 0 w d tr)
+(* std::unique_lock lk(mtx_run_);  -- blocks while the controller is inside reboot() *)
+| S_lock b r s t n w tr :
+    sstep (mk PLock r s t n w false tr) (MThread b) (mk PHeld r s t n w false tr)
+(* cv_run_.wait(lk, pred): predicate true -> lk.unlock() *)
+| S_pass b p r s t n w d tr : p = PHeld \/ p = PRecheck -> r || t = true ->
+    sstep (mk p r s t n w d tr) (MThread b) (mk PInit r s t n false d tr)
+(* predicate false -> release the mutex and block *)
+| S_block b p r s t n w d tr : p = PHeld \/ p = PRecheck -> r || t = false ->
+    sstep (mk p r s t n w d tr) (MThread b) (mk PSleep r s t n false d tr)
+(* notified: re-acquire the mutex *)
+| S_wake b r s t n tr :
+    sstep (mk PSleep r s t n true false tr) (MThread b) (mk PRecheck r s t n false false tr)
+| S_spurious r s t n w tr :
+    sstep (mk PSleep r s t n w false tr) MSpurious (mk PRecheck r s t n false false tr)
+(* initialization_step(); *)
+| S_init b r s t n w d tr :
+    sstep (mk PInit r s t n w d tr) (MThread b) (mk PInitBody r s t n w d (EInit :: tr))
+| S_init_ret b r s t n w d tr :
+    sstep (mk PInitBody r s t n w d tr) (MThread b) (mk PC1a r s t n w d tr)
+(* while (run_condition() && !teardown_ && !reset_) *)
+| S_rc1 b r s t n w d tr :
+    sstep (mk PC1a r s t n w d tr) (MThread b) (mk (if b then PC1b else PAfter) r s t n w d (ERc b :: tr))
+| S_td1 b r s t n w d tr :
+    sstep (mk PC1b r s t n w d tr) (MThread b) (mk (if t then PAfter else PC1c) r s t n w d tr)
+| S_rs1 b r s t n w d tr :
+    sstep (mk PC1c r s t n w d tr) (MThread b) (mk (if s then PAfter else PStep) r s t n w d tr)
+(* { filtering_step(); ++filtering_step_; } *)
+| S_step b r s t n w d tr :
+    sstep (mk PStep r s t n w d tr) (MThread b) (mk PStepBody r s t n w d (EStep n :: tr))
+| S_step_ret b r s t n w d tr :
+    sstep (mk PStepBody r s t n w d tr) (MThread b) (mk PInc r s t n w d tr)
+| S_inc b r s t n w d tr :
+    sstep (mk PInc r s t n w d tr) (MThread b) (mk PC1a r s t (S n) w d tr)
+(* } while (run_condition() && (run_ || reset_) && !teardown_); *)
+| S_after b r s t n w d tr :
+    sstep (mk PAfter r s t n w d tr) (MThread b) (mk PC2a r s t n w d tr)
+| S_rc2 b r s t n w d tr :
+    sstep (mk PC2a r s t n w d tr) (MThread b) (mk (if b then PC2b else PFinal) r s t n w d (ERc b :: tr))
+| S_run2 b r s t n w d tr :
+    sstep (mk PC2b r s t n w d tr) (MThread b) (mk (if r then PC2d else PC2c) r s t n w d tr)
+| S_rs2 b r s t n w d tr :
+    sstep (mk PC2c r s t n w d tr) (MThread b) (mk (if s then PC2d else PFinal) r s t n w d tr)
+| S_td2 b r s t n w d tr :
+    sstep (mk PC2d r s t n w d tr) (MThread b) (mk (if t then PFinal else PTop) r s t n w d tr)
+(* run_ = false; *)
+| S_final b r s t n w d tr :
+    sstep (mk PFinal r s t n w d tr) (MThread b) (mk PDone false s t n w d (EExit :: tr))
+| S_return b r s t n w d tr :
+    sstep (mk PDone r s t n w d tr) (MThread b) (mk PExited r s t n w d tr)
+(* run(): lock_guard; run_ = true; notify_one *)
+| C_run p r s t n w tr : mutex_free p = true ->
+    sstep (mk p r s t n w false tr) (MCmd Run) (mk p true s t n (notified p w) false (ECmd Run :: tr))
+(* reboot(): lock_guard; reset_ = true; ... *)
+| C_reboot p r s t n w tr : mutex_free p = true ->
+    sstep (mk p r s t n w false tr) (MCmd Reboot) (mk p r true t n w true (ECmd Reboot :: tr))
+(* ... run_ = false; notify_one *)
+| C_reboot_end p r s t n w tr :
+    sstep (mk p r s t n w true tr) MRebootEnd (mk p false s t n (notified p w) false tr)
+(* reset(): reset_ = true *)
+| C_reset p r s t n w d tr :
+    sstep (mk p r s t n w d tr) (MCmd Reset) (mk p r true t n w d (ECmd Reset :: tr))
+(* teardown(): lock_guard; teardown_ = true; notify_one *)
+| C_teardown p r s t n w tr : mutex_free p = true ->
+    sstep (mk p r s t n w false tr) (MCmd Teardown) (mk p r s true n (notified p w) false (ECmd Teardown :: tr))
+(* wait(): join *)
+| C_wait r s t n w d tr :
+    sstep (mk PExited r s t n w d tr) (MCmd Wait) (mk PExited r s t n w d (ECmd Wait :: tr))
+| C_is_running p r s t n w d tr :
+    sstep (mk p r s t n w d tr) (MCmd IsRunning) (mk p r s t n w d (EQRun r :: tr))
+| C_step_number p r s t n w d tr :
+    sstep (mk p r s t n w d tr) (MCmd StepNumber) (mk p r s t n w d (EQStep n :: tr)).
+
+Inductive reachable_rel : config -> Prop :=
+| RR_init : reachable_rel init
+| RR_step c m c' : reachable_rel c -> sstep c m c' -> reachable_rel c'.
 
 Fixpoint run_moves (c : config) (ms : list move) : option config :=
   match ms with
@@ -200,6 +300,13 @@ Fixpoint rae (tr : list event) : option bool :=
   | _ :: t => rae t
   end.
 
+(* most recent answer of run_condition() *)
+Fixpoint last_rc (tr : list event) : option bool :=
+  match tr with [] => None | ERc b :: _ => Some b | _ :: t => last_rc t end.
+
+Definition exit_cause (tr : list event) : bool :=
+  match tdm tr with Some _ => true | None => match last_rc tr with Some false => true | _ => false end end.
+
 Definition le1 (o : option nat) : bool :=
   match o with Some (S (S _)) => false | _ => true end.
 
@@ -222,7 +329,7 @@ Definition head_ok (e : event) (t : list event) : bool :=
   | EInit => negb (opt_is (last_thr t) EExit)
   | EStep 0 => opt_is (last_thr t) EInit && runreq t
   | EStep (S k) => opt_is (last_thr t) (EStep k) && runreq t
-  | EExit => is_init_or_step (last_thr t)
+  | EExit => is_init_or_step (last_thr t) && exit_cause t
   | EQRun true => match rae t with Some false => false | _ => true end
   | _ => true
   end.
@@ -268,13 +375,21 @@ Definition wake (c : config) : config :=
   | _ => c
   end.
 
-(* a token that is not enabled (thread asleep / gone; mutex command while the
+(* reboot() is one call for the harness: both halves are executed back to back.
+   A token that is not enabled (thread asleep / gone; mutex command while the
    thread holds the mutex at point 2; wait before exit) is skipped *)
+Definition complete_reboot (c : config) : config :=
+  if c_mid c then match step c MRebootEnd with Some c' => c' | None => c end else c.
+
 Definition do_token (c : config) (t : token) : config :=
   match t with
   | TT => thread_token true c
   | TF => thread_token false c
-  | KCmd k => match step c (MCmd k) with Some c' => wake c' | None => c end
+  | KCmd k =>
+      match step c (MCmd k) with
+      | Some c' => wake (complete_reboot c')
+      | None => c
+      end
   end.
 
 Definition run_word (c : config) (w : list token) : config := fold_left do_token w c.
